@@ -12,7 +12,7 @@ RULE = ("(diff) for both curves, scalars a, b in [0, r] (boundary, uniform, 0 an
         "optimized inputs: coefficient list of optimized pairing(bG2, aG1) == that of the reference pairing; "
         "(split) for both optimized modules and lists of 1..6 scalar pairs: final_exponentiate(prod pairing(Q_i, "
         "P_i, final_exponentiate=False)) == prod pairing(Q_i, P_i); (fexp) for FQ12 elements 0, 1, w, w^11, "
-        "sparse (k of 12 coefficients) and uniform: optimized-BLS final_exponentiate(x) == x ** ((p^12-1)//r) and "
+        "sparse (k of 12 coefficients), uniform and unitary / cyclotomic elements y^(p^6-1), y^((p^6-1)(p^2+1)) built by the model: optimized-BLS final_exponentiate(x) == x ** ((p^12-1)//r) and "
         "exp_by_p(x) == x ** p, every module's final_exponentiate == the model's plain power; (interleaved) the two optimized curves' exponentiation entry points called alternately in one process in a drawn order, each result compared with the plain power. Non-trivial = a "
         "differential case with a*b not in {0, 1, -1} mod r, a split case with >= 2 factors, an exponentiation "
         "case with x not in {0, 1}; distinct by input digest")
@@ -21,7 +21,7 @@ ASSUMPTIONS = ["reference pairings are the specification for the optimized ones 
 ENGINE = "hypothesis (differential and metamorphic)"
 TECHNIQUE = ("differential and metamorphic property-based testing (Hypothesis): optimized vs reference pairing, split vs product, fast vs plain exponentiation, curves interleaved in one process")
 _REQ = ["interleaved:both_curves", "diff:identity_argument", "diff:bn128", "diff:bls12_381", "diff:scaled", "split:optimized_bn128", "split:optimized_bls12_381",
-        "split:n>=2", "fexp:optimized_bls12_381", "fexp:exp_by_p", "fexp:x=0", "fexp:sparse", "fexp:model_power",
+        "split:n>=2", "fexp:optimized_bls12_381", "fexp:exp_by_p", "fexp:x=0", "fexp:unitary", "fexp:sparse", "fexp:model_power",
         "fexp:bn128", "fexp:optimized_bn128", "fexp:bls12_381"]
 REQUIRED_LABELS = {"quick": _REQ, "thorough": _REQ}
 
@@ -106,6 +106,8 @@ def o_fexp(ctx, case):
         ctx.label("fexp:exp_by_p")
     ctx.label(f"fexp:{name}")
     nz = sum(1 for c in x if c % C.p)
+    if nz and C.F12.pow(C.F12.el(x), C.p ** 6 + 1) == C.F12.one:
+        ctx.label("fexp:unitary")
     if nz == 0:
         ctx.label("fexp:x=0")
     elif nz <= 3:
@@ -168,14 +170,33 @@ def s_x(p):
     return st.one_of(dense, sparse, sparse)
 
 
+def unitary(curve, y, cyclotomic):
+    """y^(p^6-1) (norm 1 over Fp6; with cyclotomic also ^(p^2+1), i.e. an element of the cyclotomic subgroup
+    that contains every pairing value) computed by the model: the inputs a 'skip the easy part' shortcut
+    would be tempted by."""
+    C = mc.CURVES[curve]
+    e = C.p ** 6 - 1
+    if cyclotomic:
+        e *= C.p ** 2 + 1
+    return list(C.F12.pow(C.F12.el(tuple(y)), e))
+
+
 def s_fexp(name, model):
-    p = mc.CURVES[pc.CURVE_OF[name]].p
-    return st.fixed_dictionaries({"module": st.just(name), "x": s_x(p), "model": st.just(model)})
+    curve = pc.CURVE_OF[name]
+    p = mc.CURVES[curve].p
+    plain = s_x(p)
+    uni = st.tuples(s_x(p), st.booleans()).filter(lambda t: any(c % p for c in t[0])).map(
+        lambda t: unitary(curve, t[0], t[1]))
+    return st.fixed_dictionaries({"module": st.just(name), "x": st.one_of(plain, plain, uni), "model": st.just(model)})
 
 
 def _fexp_examples(name):
     unit = lambda i: [0] * i + [1] + [0] * (11 - i)   # noqa: E731
-    return [{"module": name, "x": x, "model": True} for x in ([0] * 12, unit(0), unit(1), unit(11), unit(6))]
+    curve = pc.CURVE_OF[name]
+    ex = [{"module": name, "x": x, "model": True} for x in ([0] * 12, unit(0), unit(1), unit(11), unit(6))]
+    ex.append({"module": name, "x": unitary(curve, [3, 1, 4, 1, 5, 9, 2, 6, 5, 3, 5, 8], False), "model": True})
+    ex.append({"module": name, "x": unitary(curve, [2, 7, 1, 8, 2, 8, 1, 8, 2, 8, 4, 5], True), "model": True})
+    return ex
 
 
 def t_diff(ctx, curve, shard, n):
